@@ -68,7 +68,7 @@ TravStep(kids, pre, s, rev) ==
              visited |-> vis1]
 
 \* the stack is the path from the root to the current node: frame j+1 is the child that frame j has just handed out
-StackIsPath(kids, stack) ==
+IsRootPath(kids, stack) ==
   stack # <<>> =>
     /\ stack[1].n = 1
     /\ \A j \in 1 .. Len(stack) : stack[j].i \in 0 .. Len(kids[stack[j].n])
